@@ -67,6 +67,9 @@ EXPLAIN = {
                         "with an exception type other than ValueError.",
     "arc-bad-flag": "an arc flag other than the single characters 0/1 is an error inside that arc command; "
                     "nothing of that arc may be retained.",
+    "arc-incomplete": "the 'A' branch of the lexer does not check that ry / rotation / flags were read (the 'a' "
+                      "branch checks the sweep flag): 'A 1 z' reaches Path.arc with None operands (TypeError), and "
+                      "when start == close target a degenerate Arc is retained.",
     "close-followed-by-number": "'z' takes no operands: the closepath itself is complete and valid, the number "
                                 "after it is the first error; render-up-to-the-error keeps the Close.",
     "number-overflow": "a number whose value overflows to infinity is retained as an inf coordinate; later "
@@ -239,9 +242,11 @@ def compare_with_oracle(lib, ora, tol=1e-9, lenient=False):
             cen = G.arc_center(o)
             scale = max(1.0, abs(o["start"][0]), abs(o["start"][1]), abs(o["end"][0]), abs(o["end"][1]))
             t_arc = tol
-            if lenient and (cen is None or max(cen["rx"], cen["ry"]) > 1e9 * min(cen["rx"], cen["ry"], scale)):
+            if lenient and (cen is None or max(cen["rx"], cen["ry"]) > 1e9 * min(cen["rx"], cen["ry"], scale)
+                            or abs(o["rotation"]) > 1e6):
                 # zero radius: judged by C01; radii beyond 1e9 x the rest of the figure: the centre form
-                # (centre + 15.5 == centre at 1e25) cannot represent the arc in double precision
+                # (centre + 15.5 == centre at 1e25) cannot represent the arc in double precision; rotations
+                # beyond 1e6 degrees: cos(radians(1e30)) has no significant digits
                 continue
             if cen is not None:
                 scale = max(scale, cen["rx"], cen["ry"])
@@ -917,6 +922,7 @@ def _strict_candidates(s):
         acc.append(G.interp(items2, lenient_start=True))
         if err2 is not None and err2.occ_in_error is not None:
             acc.append(G.interp([it for it in items2 if it["occ"] != err2.occ_in_error], lenient_start=True))
+        err.lenient_error = err2
         return acc, "no-leading-move", err
     acc.append(G.interp(items))
     if err.occ_in_error is not None:
@@ -936,30 +942,49 @@ def expected_prefixes(s):
     segment start None, relative = absolute) for L/C/Q only. Not judged for the prefix: closepath after fewer
     than n-1 pairs (EBNF-legal, undefined in prose) and numbers that overflow the float range. The second
     candidate list is the same reading of s with every comma replaced by a blank (a parser that treats
-    commas as white space accepts a superset of the grammar); matching only that list is counted as
-    'lenient', not as a failure.
+    commas as white space accepts a superset of the grammar) and/or with command letters that have no operand
+    at all removed (a parser that skips empty commands); matching only that list is counted as 'lenient',
+    not as a failure.
     """
     acc, cat, err = _strict_candidates(s)
     acc2 = None
-    if "," in s and cat in ("error", "no-leading-move"):
-        acc2, cat2, err2 = _strict_candidates(s.replace(",", " "))
+    if cat in ("error", "no-leading-move"):
+        acc2 = []
+        seen = set()
+        todo = [s]
+        for _ in range(6):  # a few rounds of the two lenient rewritings
+            nxt = []
+            for t in todo:
+                a_, c_, e_ = _strict_candidates(t)
+                if a_ is not None:
+                    acc2.extend(a_)
+                e2 = getattr(e_, "lenient_error", e_) if e_ is not None else None
+                if e2 is not None and err is not None and t != s:
+                    err.__dict__.setdefault("rewritten_errors", []).append((t, e2))
+                cands = []
+                if "," in t:
+                    cands.append(t.replace(",", " "))
+                if e2 is not None and e2.bare and e2.cmd_pos is not None:
+                    # a command letter without any operand: a lenient parser may skip it
+                    cands.append(t[:e2.cmd_pos] + " " + t[e2.cmd_pos + 1:])
+                for c in cands:
+                    if c not in seen:
+                        seen.add(c)
+                        nxt.append(c)
+            todo = nxt
+            if not todo:
+                break
     return acc, cat, err, acc2
 
 
 def err_command(s, err):
-    """letter of the command in which the oracle found the error, and how many operands it had got"""
+    """letter of the command in which the oracle found the error (the next letter when it lies between commands)"""
     if err is None:
         return None
-    if err.occ_in_error is None:
-        m = re.match(r"\s*([A-Za-z])", s[err.pos:])
-        return m.group(1) if m else None
-    # find the letter of occurrence occ_in_error: count command letters
-    occ = -1
-    for m in re.finditer(r"[MmZzLlHhVvCcSsQqTtAa]", s):
-        occ += 1
-        if occ == err.occ_in_error:
-            return m.group(0)
-    return None
+    if err.cmd is not None:
+        return err.cmd
+    m = re.match(r"\s*([A-Za-z])", s[err.pos:])
+    return m.group(1) if m else None
 
 
 def builder_callback(exc):
@@ -1009,8 +1034,14 @@ def c09_classify(s, cat, err, what, detail=None):
             return "close-without-subpath-None-coordinate"
         return "None-coordinate-%s" % (letter or cat)
     if what == "retained":
-        if letter and letter in "Aa" and err is not None and "flag" in err.msg:
-            return "arc-bad-flag-spurious-segment"
+        if err is not None and getattr(err, "lenient_error", None) is not None:
+            err = err.lenient_error
+            letter = err_command(s, err)
+        for t2, e2 in [(s, err)] + list(getattr(err, "rewritten_errors", []) if err is not None else []):
+            if e2 is not None and e2.cmd is not None and e2.cmd in "Aa" and "flag" in e2.msg:
+                return "arc-bad-flag-spurious-segment"
+        if letter and letter in "Aa" and err is not None and "argument" in err.msg:
+            return "arc-incomplete-spurious-segment"
         if err is not None and err.occ_in_error is None and re.match(r"[\s,]*[-+.0-9]", s[err.pos:]):
             prev = s[:err.pos].rstrip(" \t\n\r\x0c,")
             if prev[-1:] in "Zz" and prev[-1:]:
